@@ -101,7 +101,17 @@ type m18Entry struct {
 	name  string
 	arity int
 	isVar bool
-	val   any
+	val   any // a variable holds a *m18Cell, so that a definition referring to it sees what the cell holds at run time
+	depth int // module nesting level at which a variable was bound
+}
+
+type m18Cell struct{ v any }
+
+func m18Val(v any) any {
+	if c, ok := v.(*m18Cell); ok {
+		return c.v
+	}
+	return v
 }
 
 // m18Model resolves names over a virtual set of modules.
@@ -111,6 +121,7 @@ type m18Model struct {
 	// deviations of the pinned tree that are recorded as known findings
 	leak            bool // an imported module sees the names its importer had at the import
 	includeHidesVar bool // the data imports of an included module are not visible after the include
+	rebind          bool // a data import under a name already bound at the same module level overwrites that binding
 }
 
 func m18LookupFunc(cur []m18Entry, name string, arity int) (any, bool) {
@@ -135,7 +146,7 @@ func m18LookupVar(cur []m18Entry, name string) (any, bool) {
 }
 
 // compile returns what the module adds to the scope of whoever links it, or the first error.
-func (m *m18Model) compile(mod *m18Mod, dir string, visible []m18Entry) ([]m18Entry, string) {
+func (m *m18Model) compile(mod *m18Mod, dir string, visible []m18Entry, depth int) ([]m18Entry, string) {
 	cur := append([]m18Entry{}, visible...)
 	base := len(visible)
 	for _, l := range mod.links {
@@ -145,13 +156,27 @@ func (m *m18Model) compile(mod *m18Mod, dir string, visible []m18Entry) ([]m18En
 			if !ok {
 				return nil, fmt.Sprintf("module not found: %q", l.target)
 			}
-			cur = append(cur, m18Entry{name: l.alias, isVar: true, val: v}, m18Entry{name: l.alias + "::" + l.alias[1:], isVar: true, val: v})
+			for _, name := range []string{l.alias, l.alias + "::" + l.alias[1:]} {
+				bound := false
+				if m.rebind {
+					for _, e := range cur {
+						if e.isVar && e.name == name && e.depth == depth {
+							e.val.(*m18Cell).v = v // the same slot is stored again
+							bound = true
+							break
+						}
+					}
+				}
+				if !bound {
+					cur = append(cur, m18Entry{name: name, isVar: true, val: &m18Cell{v}, depth: depth})
+				}
+			}
 		case m18Include:
 			t, tdir := m.mods(dir, l)
 			if t == nil {
 				return nil, fmt.Sprintf("module not found: %q", l.target)
 			}
-			add, err := m.compile(t, tdir, cur)
+			add, err := m.compile(t, tdir, cur, depth+1)
 			if err != "" {
 				return nil, err
 			}
@@ -170,7 +195,7 @@ func (m *m18Model) compile(mod *m18Mod, dir string, visible []m18Entry) ([]m18En
 			if m.leak {
 				vis = cur
 			}
-			add, err := m.compile(t, tdir, vis)
+			add, err := m.compile(t, tdir, vis, depth+1)
 			if err != "" {
 				return nil, err
 			}
@@ -416,7 +441,7 @@ func (v c18Verdict) String() string {
 	return sb.String()
 }
 
-func c18Predict(t c18Tree, probes []c18Probe, leak, hide bool) c18Verdict {
+func c18Predict(t c18Tree, probes []c18Probe, leak, hide, rebind bool) c18Verdict {
 	main, x, y, z := t.mods()
 	byName := map[string]*m18Mod{"x": x, "y": y, "z": z}
 	m := &m18Model{
@@ -428,14 +453,14 @@ func c18Predict(t c18Tree, probes []c18Probe, leak, hide bool) c18Verdict {
 			}
 			return c18DataValue(s), true
 		},
-		leak: leak, includeHidesVar: hide,
+		leak: leak, includeHidesVar: hide, rebind: rebind,
 	}
 	if im := c18Init(t.init); im != nil {
 		// the init module is included in front of the main program
 		byName[".jq"] = im
 		main.links = append([]m18Link{{kind: m18Include, target: ".jq"}}, main.links...)
 	}
-	cur, err := m.compile(main, "", nil)
+	cur, err := m.compile(main, "", nil, 0)
 	var v c18Verdict
 	if err != "" {
 		v.err = err
@@ -447,7 +472,7 @@ func c18Predict(t c18Tree, probes []c18Probe, leak, hide bool) c18Verdict {
 			ok  bool
 			val any
 			err string
-		}{e == "", val, e})
+		}{e == "", m18Val(val), e})
 	}
 	return v
 }
@@ -581,7 +606,7 @@ func c18Permutations(n, maxLen int) [][]int {
 
 func c18CheckTree(c *engine.Ctx, t c18Tree, probes []c18Probe, root string) {
 	c.Eval()
-	want := c18Predict(t, probes, false, false)
+	want := c18Predict(t, probes, false, false, false)
 	got := c18ObserveTree(t, probes, root, want)
 	ws, gs := want.String(), got.String()
 	if want.err != "" {
@@ -601,29 +626,36 @@ func c18CheckTree(c *engine.Ctx, t c18Tree, probes []c18Probe, root string) {
 	if ws == gs {
 		return
 	}
-	// attribute to the recorded deviations, smallest set first
-	kind := "scoping"
-	for _, dev := range []struct {
-		leak, hide bool
-		name       string
-	}{{true, false, "deviation:importer-names-visible-in-imported-module"}, {false, true, "deviation:include-drops-data-imports"}, {true, true, "deviation:importer-names-visible-in-imported-module+include-drops-data-imports"}} {
-		w2 := c18Predict(t, probes, dev.leak, dev.hide)
+	// attribute to the recorded deviations, smallest set first; one violation per deviation of the set that explains the tree
+	kinds := []string{"scoping"}
+	names := []string{"deviation:importer-names-visible-in-imported-module", "deviation:include-drops-data-imports", "deviation:same-name-data-import-rebinds"}
+	for _, set := range [][]int{{0}, {1}, {2}, {0, 1}, {0, 2}, {1, 2}, {0, 1, 2}} {
+		var on [3]bool
+		for _, i := range set {
+			on[i] = true
+		}
+		w2 := c18Predict(t, probes, on[0], on[1], on[2])
 		g2 := got
 		if w2.err == "" && got.err == "" || w2.err != "" {
 			// the observation above was guided by the ideal model's verdict; redo it guided by this one when they differ in shape
 			g2 = c18ObserveTree(t, probes, root, w2)
 		}
 		if w2.String() == g2.String() {
-			kind = dev.name
+			kinds = nil
+			for _, i := range set {
+				kinds = append(kinds, names[i])
+			}
 			break
 		}
 	}
 	main, x, y, z := t.mods()
-	c.Violation(t.key(), kind, map[string]any{
-		"tree": map[string]any{"main": t.main, "init": t.init, "mainDefs": t.mainDefs, "lx": t.lx, "ly": t.ly, "px": t.px, "py": t.py, "pz": t.pz},
-		"main": main.text(), "x.jq": x.text(), "y.jq": y.text(), "z.jq": z.text(),
-		"model": c18Explain(probes, want), "gojq": c18Explain(probes, got),
-	})
+	for _, kind := range kinds {
+		c.Violation(t.key(), kind, map[string]any{
+			"tree": map[string]any{"main": t.main, "init": t.init, "mainDefs": t.mainDefs, "lx": t.lx, "ly": t.ly, "px": t.px, "py": t.py, "pz": t.pz},
+			"main": main.text(), "x.jq": x.text(), "y.jq": y.text(), "z.jq": z.text(),
+			"model": c18Explain(probes, want), "gojq": c18Explain(probes, got),
+		})
+	}
 }
 
 func c18Explain(probes []c18Probe, v c18Verdict) any {
@@ -838,6 +870,29 @@ func c18RunB(c *engine.Ctx, root string) {
 							os.Remove(rb + "/" + wdir + "/w.jq")
 						}
 					}
+					// the nested module lives in rb while the command runs in rb/w1: a bare relative `search` ("d2", not "./d2")
+					// is still relative to the module's own directory
+					os.Chdir(rb + "/w1")
+					for _, ws := range []string{"d2", "d1", "d2/", "w1/../d1", "nowhere", "./d2"} {
+						dirs := []string{filepath.Join(rb, ws)}
+						var args []string
+						for _, d := range cfg.dirs {
+							dirs = append(dirs, filepath.Join(rb, d))
+							args = append(args, "-L", filepath.Join(rb, d))
+						}
+						var wtext string
+						if isData {
+							wtext = fmt.Sprintf("import %q as $v {search: %q}; def r: $v[0];", n, ws)
+						} else {
+							wtext = fmt.Sprintf("import %q as m {search: %q}; def r: m::t;", n, ws)
+						}
+						os.WriteFile(rb+"/w.jq", []byte(wtext), 0o644)
+						query := fmt.Sprintf("import \"w\" as w {search: %q}; w::r", rb)
+						key := fmt.Sprintf("nested-other-cwd n=%s data=%v mask=%d cfg=%s search=%s", n, isData, mask, cfg.name, ws)
+						c18CheckResolution(c, key, append(args, "-n", query), dirs, nil, exists, n, ext, rb, cands, mask)
+						os.Remove(rb + "/w.jq")
+					}
+					os.Chdir(rb)
 				}
 				os.Chdir(root)
 			}
@@ -1149,7 +1204,7 @@ func c18Replay(v *engine.Violation) (bool, string) {
 	}
 	c18WriteA(root)
 	probes := c18Probes()
-	want := c18Predict(t, probes, false, false)
+	want := c18Predict(t, probes, false, false, false)
 	got := c18ObserveTree(t, probes, root, want)
 	return want.String() != got.String(), fmt.Sprintf("model: %v\ngojq:  %v", c18Explain(probes, want), c18Explain(probes, got))
 }
@@ -1159,7 +1214,7 @@ func init() {
 		ID:    "C18",
 		Level: "model_checking",
 		Rule: "module trees main -> x -> y -> z (depth 3, diamonds, the same module reached by include and by import, the same alias used twice): main links = every sequence of <= 2 (thorough <= 3) distinct links from 8 (include/import x, y, z under aliases a, b, c; data imports d and e as $d) x 10 link lists of x x 4 of y x definition profiles (9 for x and y, 5 for z, 3 for main: the same name at different arities, redefinition, forward references, calls of unqualified, qualified and builtin-shadowing names, $d and $d::d) are materialised with the real module loader; 27 probes (f, f(1), g, k, v, length under no alias, a::, b::, c::; $d, $d::d, $e) are each compiled and run, and must be defined with the predicted value or fail with the predicted error of the model (textual inclusion with namespacing). " +
-			"File-system resolution: the 4 candidate files of a module (d1/n.jq, d1/n/base.jq, d2/n.jq, d2/n/base.jq; n = x and p/x; .json for data) x every presence subset x 4 -L configurations x 6 `search` entries in main (also as a -f file in another directory) x nested modules living in two directories with 7 `search` entries. modulemeta for 4 x 5 x 6 modules (arities up to 12); the default search list with the real binary (3 kinds of ~/.jq x lib/gojq, lib presence x 4 -L settings). A tree is non-trivial when at least one probe is visible; a resolution case when a file is found.",
+			"File-system resolution: the 4 candidate files of a module (d1/n.jq, d1/n/base.jq, d2/n.jq, d2/n/base.jq; n = x and p/x; .json for data) x every presence subset x 4 -L configurations x 6 `search` entries in main (also as a -f file in another directory) x nested modules living in two directories with 7 `search` entries, and in a directory other than the working directory with 6 bare relative entries. modulemeta for 4 x 5 x 6 modules (arities up to 12); the default search list with the real binary (3 kinds of ~/.jq x lib/gojq, lib presence x 4 -L settings). A tree is non-trivial when at least one probe is visible; a resolution case when a file is found.",
 		Assume:         []string{"the model's reading of the property: include = textual insertion (so an included module sees what its includer has defined so far, and exports its own imports), import = isolation plus alias prefix"},
 		Run:            c18Run,
 		Replay:         c18Replay,
